@@ -149,3 +149,123 @@ func (p *Prog) resolveByRole(name string) *ssa.Function {
 	}
 	return nil
 }
+
+// ---- struct fields by role ----
+//
+// The specifications name a few unexported struct fields (tagSize, nonceSize, roundKeys of the AEAD object; h, x, nx, len
+// of the hash state; enc, dec of the cipher). A renamed field keeps its role: it is recognised by its type where that is
+// unique in the struct, and otherwise by how the constructor fills it.
+
+var fieldRoleCache = map[*Prog]map[string]string{} // "TypeName.actualField" -> canonical field name
+
+func (p *Prog) canonField(structName, field string, ft types.Type) string {
+	m := fieldRoleCache[p]
+	if m == nil {
+		m = p.buildFieldRoles()
+		fieldRoleCache[p] = m
+	}
+	if c, ok := m[structName+"."+field]; ok {
+		return c
+	}
+	return field
+}
+
+func (p *Prog) buildFieldRoles() map[string]string {
+	m := map[string]string{}
+	// by type
+	byType := map[string]map[string]string{
+		"SM3":       {"[8]uint32": "h", "[64]byte": "x", "[64]uint8": "x", "int": "nx", "uint64": "len"},
+		"sm4GcmAsm": {"[]uint32": "roundKeys"},
+	}
+	for _, pk := range p.Pkgs {
+		if pk == nil || pk.Types == nil {
+			continue
+		}
+		for sn, roles := range byType {
+			obj := pk.Types.Scope().Lookup(sn)
+			if obj == nil {
+				continue
+			}
+			st, ok := obj.Type().Underlying().(*types.Struct)
+			if !ok {
+				continue
+			}
+			seen := map[string]int{}
+			for i := 0; i < st.NumFields(); i++ {
+				seen[types.TypeString(st.Field(i).Type(), func(*types.Package) string { return "" })]++
+			}
+			for i := 0; i < st.NumFields(); i++ {
+				ts := types.TypeString(st.Field(i).Type(), func(*types.Package) string { return "" })
+				if c, ok := roles[ts]; ok && seen[ts] == 1 {
+					m[sn+"."+st.Field(i).Name()] = c
+				}
+			}
+		}
+	}
+	// by how the constructor fills them: NewGCM(nonceSize, tagSize) stores its two parameters into the AEAD object
+	if fn := p.funcs["sm4.(*sm4CipherAsm).NewGCM"]; fn != nil && len(fn.Params) == 3 {
+		for _, b := range fn.Blocks {
+			for _, in := range b.Instrs {
+				st, ok := in.(*ssa.Store)
+				if !ok {
+					continue
+				}
+				fa, ok := st.Addr.(*ssa.FieldAddr)
+				if !ok {
+					continue
+				}
+				stt, ok := fa.X.Type().Underlying().(*types.Pointer).Elem().Underlying().(*types.Struct)
+				if !ok {
+					continue
+				}
+				switch st.Val {
+				case ssa.Value(fn.Params[1]):
+					m["sm4GcmAsm."+stt.Field(fa.Field).Name()] = "nonceSize"
+				case ssa.Value(fn.Params[2]):
+					m["sm4GcmAsm."+stt.Field(fa.Field).Name()] = "tagSize"
+				}
+			}
+		}
+	}
+	// the key schedule fills the encryption schedule first, the decryption schedule second
+	if fn := p.Func("sm4.expandKey"); fn != nil {
+		for _, caller := range p.RepoFuncs() {
+			for _, b := range caller.Blocks {
+				for _, in := range b.Instrs {
+					call, ok := in.(*ssa.Call)
+					if !ok || call.Call.StaticCallee() != fn || len(call.Call.Args) != 3 {
+						continue
+					}
+					for i, canon := range []string{"enc", "dec"} {
+						if fa, ok := call.Call.Args[1+i].(*ssa.FieldAddr); ok {
+							if stt, ok := fa.X.Type().Underlying().(*types.Pointer).Elem().Underlying().(*types.Struct); ok {
+								m["sm4Cipher."+stt.Field(fa.Field).Name()] = canon
+							}
+						}
+					}
+				}
+			}
+		}
+	}
+	return m
+}
+
+func structNameOf(t types.Type) string {
+	if pt0, ok := t.Underlying().(*types.Pointer); ok {
+		t = pt0.Elem()
+	}
+	if nt, ok := t.(*types.Named); ok {
+		return nt.Obj().Name()
+	}
+	return ""
+}
+
+// isTagSizeTerm: a term key of the guard-fact analysis that is a load of the AEAD object's tag-size field (whatever it is called)
+func isTagSizeTerm(p *Prog, k string) bool {
+	i := strings.LastIndex(k, ".")
+	if i < 0 {
+		return false
+	}
+	f := strings.TrimRight(k[i+1:], ")")
+	return f == "tagSize" || p.canonField("sm4GcmAsm", f, nil) == "tagSize"
+}
